@@ -70,7 +70,7 @@ Step == /\ a < End
         /\ UNCHANGED <<p, h>>
 Spec == Init /\ [][Step]_vars
 
-Claimed(q) == ~q.sp      \* every padding type since the repairs of F3 and F4 (explicit padding); split read offsets: findings F1, F2
+Claimed(q) == TRUE      \* every case since the repairs of F1-F4 (split read offsets included)
 CaseTuple == <<p.ax, p.I, p.ro, p.rl, p.sp, p.wo, p.O, p.k, p.d, p.s, p.pt, p.epb, p.epa, p.up, h, a>>
 
 ExactWhereClaimed == (a < End /\ (Claimed(p) \/ (p.up = 1 /\ p.pt = "EXPLICIT"))) => Exact(p, Rec)
